@@ -287,6 +287,9 @@ func newWriteCmdArgsFromInputInstances(cmd *cobra.Command, inputInstances []*inp
 			}
 		}
 		if c := x.Chord; c != nil {
+			if _, ok := c.Degree.Semitone(); !ok {
+				return nil, errorx.Invalid("Chord %s requires degree: instances[%d]", c.Chord, i)
+			}
 			x, ok := cmap.GetChord(c.Chord)
 			if !ok {
 				return nil, errorx.NotFound("Chord %s", c.Chord)
